@@ -77,7 +77,7 @@ def _nonlin_solver(fcn, x0, params,
     stop_cond = custom_terminator if custom_terminator is not None \
         else TerminationCondition(f_tol, f_rtol, y_norm, x_tol, x_rtol)
     if (y_norm == 0):
-        return x.reshape(xshape)
+        return _pack(x)  # x is the flattened (for complex: real-imag concatenated) representation
 
     # set up the jacobian
     jacobian.setup(x, y, func)
